@@ -414,8 +414,8 @@ def build_spec(case: dict) -> dict:
             spec["branch_model"] = {"id": "clock", "type": "SimpleClockModel", "tree_model": "tree", "rate": P("rate", ck["rates"])}
     if case.get("use_ambiguities") is not None:
         spec["use_ambiguities"] = case["use_ambiguities"]
-    if case.get("use_tip_states"):
-        spec["use_tip_states"] = True
+    if case.get("use_tip_states") is not None:
+        spec["use_tip_states"] = bool(case["use_tip_states"])
     return spec
 
 
@@ -511,8 +511,10 @@ def gen_case(rng, n, topo: Node | None = None, subst=None, site=None, rooting=No
     case = {"taxa": taxa, "seq_order": seq_order, "seqs": seqs, "datatype": dt, "rooting": rooting,
             "subst": gen_subst(rng, subst), "site": gen_site(rng, site)}
     if tip_states is None:
-        tip_states = rng.random() < 0.35
-    case["use_tip_states"] = bool(tip_states)
+        tip_states = True if rng.random() < 0.35 else rng.choice([False, "absent"])
+    if tip_states == "absent":
+        tip_states = None
+    case["use_tip_states"] = tip_states if tip_states is None else bool(tip_states)
     if use_amb is None and not use_amb_fixed:
         use_amb = rng.choice([True, False, None])
     case["use_ambiguities"] = use_amb
@@ -831,3 +833,125 @@ def alignment_features(case):
     if any(c in "Uu" for col in cols for c in col):
         out.append("rna-U")
     return out
+
+
+# ----------------------------------------------------------------------------- extended-range reference (large trees)
+def mp_loglik(case, model, dps=60, sites=None):
+    """sum over sites of log(site likelihood) by pruning over the harness's own tree in mpmath (unbounded exponent
+    range, `dps` digits): the float64 transition matrices the model's substitution model returns for the harness's
+    own branch times are converted exactly.  For trees far too large for explicit enumeration; pruning = marginal is
+    TTProps.C01.peel_eq_marginal.  Returns (total, [log10 of each site likelihood])."""
+    import mpmath as mp
+    import torch
+
+    mp.mp.dps = dps
+    dt = DATATYPES[case["datatype"]]
+    S, size = dt["S"], dt["size"]
+    t = parse_newick(case["newick"])
+    times = oracle_branch_times(case, t)
+    rates = [float(x) for x in model.site_model.rates().reshape(-1)]
+    probs = [mp.mpf(float(x)) for x in model.site_model.probabilities().reshape(-1)]
+    pi = [mp.mpf(float(x)) for x in model.subst_model.frequencies.reshape(-1)]
+    nodes = [x for x in t.postorder() if x is not t]
+    T = torch.tensor([[times[id(x)] * r for r in rates] for x in nodes], dtype=torch.float64)
+    P = model.subst_model.p_t(T).detach()  # [B,K,S,S]
+    Pm = {}
+    for bi, x in enumerate(nodes):
+        for k in range(len(rates)):
+            Pm[(id(x), k)] = [[mp.mpf(float(P[bi, k, a, b])) for b in range(S)] for a in range(S)]
+    use_amb = bool(case.get("use_ambiguities")) and not case.get("use_tip_states")
+    seqs = case["seqs"]
+    nsites = min(len(s) for s in seqs.values()) // size
+    total, logs = mp.mpf(0), []
+    for j in (range(nsites) if sites is None else sites):
+        lik = mp.mpf(0)
+        for k in range(len(rates)):
+            part = {}
+            for x in t.postorder():
+                if x.is_leaf():
+                    part[id(x)] = [mp.mpf(v) for v in dt["vec"](seqs[x.name][j * size:(j + 1) * size], use_amb)]
+                else:
+                    out = [mp.mpf(1)] * S
+                    for c in x.kids:
+                        M, pc = Pm[(id(c), k)], part[id(c)]
+                        if c.is_leaf() and sum(1 for v in pc if v != 0) == 1:
+                            jj = next(i for i, v in enumerate(pc) if v != 0)
+                            col = [M[a][jj] * pc[jj] for a in range(S)]
+                        else:
+                            col = [mp.fsum(M[a][b] * pc[b] for b in range(S)) for a in range(S)]
+                        out = [out[a] * col[a] for a in range(S)]
+                    part[id(x)] = out
+            lik += probs[k] * mp.fsum(pi[a] * part[id(t)][a] for a in range(S))
+        total += mp.log(lik)
+        logs.append(float(mp.log10(lik)))
+    return float(total), logs
+
+
+def balanced(names) -> Node:
+    level = [Node(nm) for nm in names]
+    while len(level) > 1:
+        nxt = [Node(None, [level[i], level[i + 1]]) for i in range(0, len(level) - 1, 2)]
+        if len(level) % 2:
+            nxt.append(level[-1])
+        level = nxt
+    return level[0]
+
+
+def denormal_case(rng, n=256, shape="balanced", tip_states=False, target=-321.3, subst="JC69"):
+    """a large tree with MIXED columns: a few well-behaved columns (constant, one or two changes) plus one column with a
+    mismatch in (almost) every cherry, all branch lengths scaled so that the site likelihood of that column lies in the
+    float64 denormal range (log10 about `target`, i.e. a few dozen ulps above zero) without flushing to zero"""
+    names = ["t%d" % i for i in range(n)]
+    topo = balanced(names) if shape == "balanced" else (caterpillar(names) if shape == "caterpillar" else random_topology(rng, names))
+    shuffle_children(rng, topo)
+    base_len = {}
+    for x in topo.postorder():
+        base_len[id(x)] = rng.uniform(0.8, 1.2)
+    # the hard column: the two tips of every cherry differ; other tips alternate
+    leaves = topo.leaves()
+    hard = {}
+    for x in topo.postorder():
+        if x.kids and all(k.is_leaf() for k in x.kids):
+            a = rng.choice("ACGT")
+            hard[x.kids[0].name] = a
+            hard[x.kids[1].name] = rng.choice([c for c in "ACGT" if c != a])
+    for lf in leaves:
+        hard.setdefault(lf.name, rng.choice("ACGT"))
+    easy = []
+    for _ in range(rng.randint(2, 4)):
+        b = rng.choice("ACGT")
+        col = {lf.name: b for lf in leaves}
+        for _m in range(rng.choice([0, 1, 2])):
+            col[rng.choice(names)] = rng.choice("ACGT-")
+        easy.append(col)
+    cols = easy[:]
+    cols.insert(rng.randint(0, len(cols)), hard)
+    if rng.random() < 0.5:
+        cols.append(easy[0])  # a repeated well-behaved column
+    hard_pos = cols.index(hard)
+    seqs = {nm: "".join(c[nm] for c in cols) for nm in names}
+    taxa = list(names)
+    rng.shuffle(taxa)
+    case = {"taxa": taxa, "seq_order": rng.sample(names, n), "seqs": seqs, "datatype": "nucleotide", "rooting": "unrooted",
+            "subst": gen_subst(rng, subst), "site": {"kind": "constant"}, "use_tip_states": bool(tip_states),
+            "use_ambiguities": None, "dates": None, "clock": None}
+
+    def with_scale(sc):
+        for x in topo.postorder():
+            x.length = base_len[id(x)] * sc
+        topo.length = None
+        c = dict(case)
+        c["newick"] = newick(topo)
+        return c
+
+    model = build_model(with_scale(0.05))
+    lo, hi = 1e-4, 0.3  # the site likelihood of the hard column increases with the scale in this range
+    for _ in range(22):
+        mid = math.sqrt(lo * hi)
+        _tot, logs = mp_loglik(with_scale(mid), model, dps=30, sites=[hard_pos])
+        if logs[0] < target:
+            lo = mid
+        else:
+            hi = mid
+    out = with_scale(math.sqrt(lo * hi))
+    return out, hard_pos
